@@ -259,14 +259,8 @@ def _check_budget(ctx: Ctx, fn: FuncInfo) -> None:
         brk = [n for n in ast.walk(whiles[0]) if isinstance(n, ast.If) and any(isinstance(x, ast.Break) for x in n.body)]
         if len(brk) != 1:
             ctx.error('C12.e: the drop loop has %d `if ...: break` exits (one expected; cannot tell)' % len(brk))
-        bt = brk[0].test
-        if isinstance(bt, ast.UnaryOp) and isinstance(bt.op, ast.Not):
-            test = bt.operand
-        elif isinstance(bt, ast.Compare) and len(bt.ops) == 1 and isinstance(bt.ops[0], (ast.LtE, ast.GtE, ast.Lt, ast.Gt)):
-            neg = {ast.LtE: ast.Gt, ast.GtE: ast.Lt, ast.Lt: ast.GtE, ast.Gt: ast.LtE}[type(bt.ops[0])]
-            test = ast.fix_missing_locations(ast.copy_location(ast.Compare(left=bt.left, ops=[neg()], comparators=bt.comparators), bt))
-        else:
-            ctx.error('C12.e: the exit test `%s` of the drop loop is not a negation or a single comparison (cannot tell)' % norm(bt)[:60])
+        from ..astutil import negate
+        test = negate(brk[0].test)
     from ..paths import conjuncts
     over = False
     seen_cmp = []
